@@ -216,3 +216,90 @@ def eod_tail(ctx, prog, rule='EOD-TAIL'):
             ctx.ob(rule, key, False, f.loc(n), 'end-of-data exit `%s` is taken before the buffer-exhausted test%s: samples of the last decoded block that are still buffered are never delivered '
                    '(a request that ends inside the last block makes the next call return 0)' % (cond, (' `%s`' % f.s(refills[0]['cond'])) if refills else ''), None)
     ctx.require(n_inst >= 6, 'only %d end-of-data exits found in block read loops' % n_inst)
+
+
+def _block_test(f, cond):
+    """normal form of `(X + d) * S  op  F`  ->  (X string, d, S string, op, F string) or None"""
+    from .bufacc import lin
+    cn = f.unwrap(f.N[cond] if not isinstance(cond, dict) else cond)
+    if cn.get('k') != 'BinaryOperator' or cn.get('op') not in ('>', '>=', '<', '<='):
+        return None
+    a, b = f.unwrap(f.N[cn['kids'][0]]), f.unwrap(f.N[cn['kids'][1]])
+    op = cn['op']
+    if a.get('k') != 'BinaryOperator' or a.get('op') != '*':
+        return None
+    x, s_ = f.unwrap(f.N[a['kids'][0]]), f.unwrap(f.N[a['kids'][1]])
+    try:
+        L = lin(f, x)
+    except Exception:
+        return None
+    vars_ = [k for k, v in L.items() if k != '' and v]
+    if len(vars_) != 1 or L[vars_[0]] != 1:
+        return None
+    return (vars_[0], L.get('', 0), f.s(s_), op, f.s(b))
+
+
+def block_avail(ctx, prog, rule='BLOCK-AVAIL'):
+    """reader-side `block past the end` test agrees with the consumer-side end-of-data test"""
+    readers = {}
+    for f in prog.lib_fns():
+        # X++ on a private-struct field, then `if ((X + d) * S op F) { memset (own buffer) ; return }`
+        incs = {}
+        for lv, a, r in assigned_lvalues(f):
+            if a['k'] == 'UnaryOperator' and a.get('op') in ('++', 'post++') and '->' in lv:
+                incs.setdefault(lv, []).append(a)
+        if not incs:
+            continue
+        for n in f.walk():
+            if n['k'] != 'IfStmt' or n.get('then') is None:
+                continue
+            t = _block_test(f, n['cond'])
+            if t is None or t[0] not in incs:
+                continue
+            ms = [c for c in f.calls(root=n['then']) if c.get('callee') == 'memset']
+            rets = [x for x in f.walk(n['then']) if x['k'] == 'ReturnStmt']
+            if not ms or not rets:
+                continue
+            ninc = sum(1 for a in incs[t[0]] if f.cfg.dominates(a, n))
+            readers[f] = (t, ninc, n)
+    consumers = {}
+    for f in prog.lib_fns():
+        for n in f.walk():
+            if n['k'] != 'IfStmt' or n.get('then') is None:
+                continue
+            t = _block_test(f, n['cond'])
+            if t is None:
+                continue
+            ms = [c for c in f.calls(root=n['then']) if c.get('callee') == 'memset' and 'ptr' in f.s(f.args(c)[0])]
+            rets = [x for x in f.walk(n['then']) if x['k'] == 'ReturnStmt']
+            if ms and rets:
+                consumers.setdefault(f.file, []).append((f, t, n))
+    n_inst = 0
+    for r, (t, ninc, n) in sorted(readers.items(), key=lambda kv: (kv[0].file, kv[0].line)):
+        cons = [c for c in consumers.get(r.file, []) if c[1][0].split('->')[-1] == t[0].split('->')[-1]]
+        if not cons:
+            continue
+        n_inst += 1
+        cf, ct, cn = cons[0]
+        # reader test in terms of the counter value the consumer saw (before the reader's increment)
+        rd = (t[1] + ninc, t[2], t[3], t[4])
+        cd = (ct[1], ct[2], ct[3], ct[4])
+        key = '%s~%s' % (r.name, cf.name)
+        if rd == cd:
+            ctx.ob(rule, key, True, r.loc(n), 'reader zero-fills exactly the blocks the consumer treats as past the end: (%s + %d) * %s %s %s in both' % (t[0].split('->')[-1], cd[0], cd[1], cd[2], cd[3]), None)
+            continue
+        if r.name == 'paf24_read_block':
+            # frozen exception, evidence re-checked: in read mode the limit is a whole number of blocks, for which `(c + 1) * S > F` and `c * S >= F` coincide
+            ini = prog.fn_opt('paf24_init', 'paf.c')
+            ev = False
+            if ini is not None:
+                fr = [ini.s(rr) for lv, a, rr in assigned_lvalues(ini) if lv == 'psf->sf.frames' and rr is not None]
+                sc = [ini.s(rr) for lv, a, rr in assigned_lvalues(ini) if lv.endswith('->sample_count') and rr is not None]
+                ev = any('max_blocks' in x and '*' in x for x in fr) and 'psf->sf.frames' in sc
+            ctx.ob(rule, key, ev, r.loc(n), 'frozen exception: reader tests (c + %d) * S %s F, consumer c * S %s F; equivalent because paf24_init sets sample_count = sf.frames = PAF24_SAMPLES_PER_BLOCK * max_blocks '
+                   '(evidence found: %s); PAF24 in SFM_RDWR mode is outside this claim' % (rd[0], rd[2], cd[2], ev), None)
+            continue
+        ctx.ob(rule, key, False, r.loc(n), 'reader %s zero-fills a block when (c + %d) * %s %s %s, but its consumer %s only stops when (c + %d) * %s %s %s (c = blocks decoded so far): a final block that is '
+               'only partly inside the data is handed out as zeros — the last frames of any stream whose length is not a whole number of blocks are lost' % (
+                   r.name, rd[0], rd[1], rd[2], rd[3], cf.name, cd[0], cd[1], cd[2], cd[3]), None)
+    ctx.require(n_inst >= 4, 'only %d reader/consumer pairs with a block-count end test found' % n_inst)
